@@ -10,8 +10,8 @@
 EXTENDS Fields, Json, IOUtils
 
 Rec == ndJsonDeserialize(IOEnv.TRACE)
-VARIABLES l, bad
-tvars == <<l, bad>>
+VARIABLES l, bad, badp
+tvars == <<l, bad, badp>>
 
 Calls(r, what) == SelectSeq(r.calls, LAMBDA c : c.call = what)
 NameOk(v, e) == v.name = e.name \/ v.name = e.alt
@@ -48,15 +48,24 @@ RunOk(r) ==
      ELSE /\ Len(Calls(r, "event")) = 0 /\ Len(Calls(r, "new_span")) = 0 /\ Len(Calls(r, "record")) = 0
           /\ d.kind = "span" => (Len(r.notes) = 1 /\ r.notes[1].span_disabled)
 
-TraceInit == l = 0 /\ bad = << >>
+\* C06's clause on the macros: a `parent:` prefix (a span, or None for an explicit root) decides the parent the collector is
+\* shown; without it the parent is left to the context.  Judged separately (tag BADP) for every enabled span / event run.
+ParentOk(r) ==
+  LET d == r.decl
+      en == Enabled(r.mode, d.level, r.cap) /\ d.level <= r.static_max
+      main == IF d.kind = "span" THEN "new_span" ELSE "event" IN
+  (en /\ d.kind # "enabled" /\ "parent" \in DOMAIN d /\ Len(Calls(r, main)) = 1) => Calls(r, main)[1].pk = d.parent
+
+TraceInit == l = 0 /\ bad = << >> /\ badp = << >>
 TraceNext ==
   /\ l < Len(Rec)
   /\ l' = l + 1
   /\ LET r == Rec[l + 1] IN
-       IF r.ev = "reset" THEN UNCHANGED bad
-       ELSE bad' = (IF RunOk(r) THEN bad ELSE Append(bad, l + 1))
+       IF r.ev = "reset" THEN UNCHANGED <<bad, badp>>
+       ELSE /\ bad' = (IF RunOk(r) THEN bad ELSE Append(bad, l + 1))
+            /\ badp' = (IF ParentOk(r) THEN badp ELSE Append(badp, l + 1))
 TraceSpec == TraceInit /\ [][TraceNext]_tvars
-Report == l = Len(Rec) => PrintT("@@BAD " \o ToJson(bad))
+Report == l = Len(Rec) => PrintT("@@BAD " \o ToJson(bad)) /\ PrintT("@@BADP " \o ToJson(badp))
 Consumed == IF TLCGet("stats").diameter = Len(Rec) + 1 THEN TRUE
             ELSE PrintT("@@STUCK " \o ToJson(TLCGet("stats").diameter)) /\ FALSE
 =============================================================================
